@@ -76,6 +76,7 @@ func cmdVerify(args []string) {
 	dump := fs.String("dump", "", "dump the query of the obligation with this name to stdout")
 	keep := fs.Bool("keep", false, "keep scratch")
 	cap := fs.Int("cap", 10, "solver cap seconds")
+	locks := fs.Bool("locks", false, "verify the lock-discipline sweep units (C25) whose names match instead of the contracts")
 	fs.Parse(args)
 	patterns := allPatterns()
 	if *pkgs != "" {
@@ -101,6 +102,9 @@ func cmdVerify(args []string) {
 		return false
 	}
 	for _, k := range prog.SortedContractKeys() {
+		if *locks {
+			break
+		}
 		ct := prog.Contracts[k]
 		if ct.Trusted || strings.HasPrefix(ct.FuncName, "iface ") || strings.HasPrefix(ct.FuncName, "field ") {
 			continue
@@ -109,6 +113,16 @@ func cmdVerify(args []string) {
 			continue
 		}
 		units = append(units, prog.VerifyContract(ct, *tier))
+	}
+	if *locks {
+		activeProperty = "C25"
+		sw := prog.lockSweepContracts()
+		sort.Slice(sw, func(i, j int) bool { return sw[i].Pkg+sw[i].FuncName < sw[j].Pkg+sw[j].FuncName })
+		for _, ct := range sw {
+			if match(ct.Pkg + "::" + ct.FuncName) {
+				units = append(units, prog.VerifyContract(ct, *tier))
+			}
+		}
 	}
 	for _, l := range prog.Lemmas {
 		if match(l.Pkg + "::lemma." + l.Name) {
